@@ -401,7 +401,7 @@ func authorizePanel(tok *biscuit.Biscuit, g *scenGen, contents [][]AuthOp) strin
 }
 
 func runC09(c *Ctx) {
-	c.Rule = "sealed / unsealed twins: a token (1-5 blocks) and the token obtained by Seal are compared on signature verification, a panel of 4 generated authorizer contents, revocation ids, refusal of Append and Seal, before and after Serialize/Unmarshal; the sealed envelope goes through the CHAIN mutation stream restricted to the seal (final signature, last block, last announced key, dropped last block, seal turned back into a secret, last block replaced and resealed with a foreign key) and must be rejected exactly when the model rejects. Non-trivial = the panel contains at least one non-failing verdict or the case is a mutated sealed envelope; distinct = distinct token bytes / mutated bytes."
+	c.Rule = "sealed / unsealed twins: a token (1-5 blocks) and the token obtained by Seal are compared on signature verification, a panel of 4 generated authorizer contents, revocation ids, refusal of Append and Seal, before and after Serialize/Unmarshal; the sealed envelope goes through the CHAIN mutation stream restricted to the seal (final signature flipped / lengthened / doubled / shortened, last block, last announced key, dropped last block, seal turned back into a secret, last block replaced and resealed with a foreign key) and must be rejected exactly when the model rejects. Non-trivial = the panel contains at least one non-failing verdict or the case is a mutated sealed envelope; distinct = distinct token bytes / mutated bytes."
 	r := NewRng(c.Seed)
 	n := 600
 	if c.Thorough {
@@ -484,7 +484,21 @@ func runC09(c *Ctx) {
 			sbs := allSigned(e)
 			last := sbs[len(sbs)-1]
 			name := ""
-			switch r.Intn(8) {
+			switch r.Intn(10) {
+			case 8:
+				// the genuine seal with bytes after it: its first 64 bytes are a valid signature
+				fs := append([]byte{}, e.Proof.GetFinalSignature()...)
+				e.Proof = &pb.Proof{Content: &pb.Proof_FinalSignature{FinalSignature: append(fs, r.Bytes(1+r.Intn(3))...)}}
+				name = "final-signature-lengthened"
+			case 9:
+				fs := e.Proof.GetFinalSignature()
+				if r.Chance(1, 2) {
+					e.Proof = &pb.Proof{Content: &pb.Proof_FinalSignature{FinalSignature: append(append([]byte{}, fs...), fs...)}}
+					name = "final-signature-doubled"
+				} else {
+					e.Proof = &pb.Proof{Content: &pb.Proof_FinalSignature{FinalSignature: append([]byte{}, fs[:len(fs)-1]...)}}
+					name = "final-signature-shortened"
+				}
 			case 7:
 				// coordinated replacement by a holder without the chain's keys: a new last
 				// block announcing the attacker's key, an arbitrary block signature, and a
